@@ -78,7 +78,8 @@ YAML_HOSTILE = ["null", "~", "Null", "NULL", "true", "True", "TRUE", "false", "y
                 "- a", "a: b", "#a", "a #b", "2001-01-01", "12:30:45", "", " ", " a", "a ", "-", "?", ":", "- ", "? a",
                 "[a]", "{a}", "&a", "*a", "!a", "|", ">", "%a", "@a", "`a", "'a'", '"a"', "a\nb", "a\n", "\ta",
                 "1_000", "0b1", "=", "<<", "---", "...", "1:2", "a:b", "a:", ":a", "a,b", "a]", "a}", "null ", "~a",
-                "0.", "-0", "+.inf", "1e", "e1", "0e0", "-.5", "+", "--- a", "a: ", "é: ü", "key", "some key"]
+                "0.", "-0", "+.inf", "1e", "e1", "0e0", "-.5", "+", "--- a", "a: ", "é: ü", "key", "some key",
+                "-1.5e-3", "+1.5E+3", "-.5e-3", "-1_0.5e-1", "1.5e-3", "-1.5e3", "-0x1F", "-0b1", "-017", "-1:30", "-1:30.5", "2001-1-1 1:00:00 -5"]
 
 
 # otherwise plain ASCII strings with exactly one character that needs care (fast paths that test only part of the set)
